@@ -317,7 +317,7 @@ def gen_case(rng, ctx):
             ctx.count("generator_rejects")
             continue
         _LAST.update(ddoc=ddoc, dtext=dtext, one_line=first_run or _LAST.get("one_line", False) and dtext == _LAST.get("dtext"))
-        return dict(default=dtext, user=utext, feats=sorted(dfeats | ufeats))
+        return dict(default=dtext, user=utext, feats=sorted(dfeats | ufeats), app_style=rng.choice([0, 0, 0, 1, 2, 3, 4]))
     raise RuntimeError("emitter keeps producing invalid TOML")
 
 
@@ -349,7 +349,10 @@ def run_case(case, ctx):
     from aw_core.config import load_config_toml
     import tomlkit
     _n[0] += 1
-    app = f"app-{os.getpid()}-{_n[0]}"
+    # application names as modules have them: plain, with a version or profile after a dot, with an underscore
+    style = case.get("app_style", 0) % 5
+    app = [f"app-{os.getpid()}-{_n[0]}", f"aw-watcher-demo-{os.getpid()}-{_n[0]}.v2", f"aw-sync.0.13-{os.getpid()}-{_n[0]}",
+           f"aw_server-{os.getpid()}-{_n[0]}.testing", f"app.{os.getpid()}.{_n[0]}"][style]
     viols = []
     dtext, utext = case["default"], case["user"]
     D = tomllib.loads(dtext)
